@@ -9,7 +9,7 @@ import os
 import vlib
 
 PID = "C11"
-FILES = ["theories/Properties/C11.v", "theories/Examples/C11Examples.v"]
+FILES = ["theories/Properties/C11.v", "theories/Properties/C11Gen.v", "theories/Examples/C11Examples.v"]
 
 
 def unhex(h):
@@ -21,12 +21,14 @@ def main(argv):
     c.cov["trusted_base"] = [
         "Coq 8.16.1 kernel (coqc; coqchk in the thorough tier); vm_compute in Examples only; no axioms",
         "hand-written model Lang/Unescape.v of zitiql.ParseZqlString and the STRING token rule",
+        "translators/unescape (reads the NewReplacer pairs and the statement shape of ParseZqlString; Properties/C11Gen.v proves "
+        "that what it read is the model function) and the documented semantics of strings.NewReplacer / TrimPrefix / TrimSuffix",
         "extraction (ExtrOcamlBasic only) + extraction/c11_driver.ml + drv_common.ml",
         "Go harness cmd/storageharness/c11.go (generators, literal printers) and this comparison",
         "ANTLR lexer runtime (the token rule is compared with the real lexer, not verified)",
     ]
     c.assumptions = ["strings are valid UTF-8 (antlr converts the input to runes); bytes >= 0x80 are safe code points"]
-    proof_ok = c.proof_step(FILES)
+    proof_ok = c.proof_step(FILES, translators=["unescape"])
     model = vlib.build_model("C11")
     harness, err = vlib.build_harness()
     if harness is None:
